@@ -255,7 +255,22 @@ def judge_c17(scn, run) -> Tuple[List[Viol], Dict[str, int]]:
                 running = False
             else:
                 if running:
-                    cnt(c, "grey:start-while-running")
+                    # start on a running bridge: either it refuses (then, like any failed start, nothing may be
+                    # left listening) or it is idempotent (then it must still be running on all ports)
+                    cnt(c, "probe:start-while-running")
+                    if act["outcome"][0] == "exc":
+                        if act["held"] or act["running"] or act["running_at_return"]:
+                            v.append(("C17/failed-start-left-ports/start-while-running",
+                                      "%s on a running bridge raised %s; afterwards is_running=%s and ports %s are still bound" % (
+                                          k, act["outcome"][1], act["running"], act["held"])))
+                        intervals[-1][1] = act["seq1"]
+                        run_windows[-1][1] = act["mono0"]
+                        running = False
+                    else:
+                        if not act["running"] or act["held"] != ports:
+                            v.append(("C17/start-while-running-inconsistent",
+                                      "%s on a running bridge returned; is_running=%s, ports held %s of %s" % (
+                                          k, act["running"], act["held"], ports)))
                     continue
                 if act["outcome"][0] != "ok":
                     v.append(("C17/start-failed/%s" % act["outcome"][1],
